@@ -1085,6 +1085,9 @@ func TestVerifC18API(t *testing.T) {
 			vf.Class(fmt.Sprintf("%s=>%d", r.req.Op, r.status))
 			if r.success() {
 				succ = append(succ, r)
+				if r.req.Big > 0 {
+					vf.Class("oversized-for-the-secondary-only-spec-stored-through-the-primary")
+				}
 			}
 			for j := 0; j < i; j++ {
 				q := all[j]
